@@ -111,6 +111,7 @@ class ShardResult:
         self.maxima = {}             # max-merged
         self.flags = {}              # and-merged booleans (e.g. exhaustive)
         self.errors = []             # harness errors (exit 2)
+        self.slowest = (0.0, "")
 
     def case(self, nontrivial=False, key=None):
         self.evaluations += 1
@@ -169,6 +170,8 @@ class ShardResult:
         for k, v in other.flags.items():
             self.flag(k, v)
         self.errors.extend(other.errors)
+        if other.slowest[0] > self.slowest[0]:
+            self.slowest = other.slowest
 
 
 def h64(obj):
@@ -269,8 +272,8 @@ def _run_shard_wrapper(args):
     finally:
         signal.alarm(0)
         signal.signal(signal.SIGALRM, old_handler)
-    res.counters["_shard_s_max"] = 0
     res.maxima["shard_wall_s"] = time.time() - t0
+    res.slowest = (time.time() - t0, repr(shard)[:120])
     return res
 
 
@@ -384,6 +387,7 @@ def main(mod, argv=None):
     for k, v in sorted(merged.flags.items()):
         coverage[k] = v
     coverage.update(extra)
+    coverage["slowest_shard"] = merged.slowest[1]
     coverage["known_findings_seen"] = sorted(
         k for k in by_key if k in open_keys)
     ev = dict(property_id=prop, tier=tier, seed=seed, level=mod.LEVEL,
